@@ -1,166 +1,21 @@
 /-
 C13 — Actor state and hyper-parameter contract holds for every actor flavour.
-Property theorems over ForML.Model.Actor (helper lemmas are local `private theorem`s).
+Property theorems over ForML.Model.Actor (helper lemmas: ForML.Lemmas.C13 and local `private theorem`s).
 
 All theorems quantify over the user's functions (`u : User σ`, uninterpreted), over every
-signature `sig`, every flavour (`fs : FlavourSpec` = native / decorated / wrapped with all their
-variants), all hyper-parameter dicts, all training histories and all inputs.
+signature `sig`, every flavour (`fs : FlavourSpec` = native / native with its own state methods /
+decorated / wrapped with all their variants), all hyper-parameter dicts, all training histories,
+all `set_params` sequences and all inputs.
 -/
-import ForML.Model.Actor
+import ForML.Lemmas.C13
 
 namespace ForML.Actor
 
 variable {σ : Type}
 
-/-! ### dict lemmas -/
-
-private theorem pget_pset (m : PMap) (k : Key) (v : Int) (k' : Key) :
-    pget (pset m k v) k' = if k = k' then some v else pget m k' := by
-  induction m with
-  | nil => simp [pset, pget]
-  | cons kv r ih =>
-    obtain ⟨k0, v0⟩ := kv
-    by_cases h0 : k0 = k
-    · subst h0; simp only [pset, pget, if_true]; by_cases h : k0 = k' <;> simp [h]
-    · by_cases h1 : k = k'
-      · subst h1; simp [pset, pget, h0, ih]
-      · simp [pset, pget, h0, ih, h1]
-
-private theorem pget_pupdate (m u : PMap) (k : Key) :
-    pget (pupdate m u) k = por (pget u k) (pget m k) := by
-  induction u with
-  | nil => simp [pupdate, pget, por]
-  | cons kv r ih =>
-    obtain ⟨k0, v0⟩ := kv
-    simp only [pupdate, pget_pset, pget]
-    by_cases h : k0 = k
-    · simp [h, por]
-    · simp [h, ih]
-
-private theorem por_some {a b : Option Int} {v : Int} (h : a = some v) : por a b = some v := by
-  subst h; rfl
-
-private theorem por_self (a : Option Int) : por a a = a := by cases a <;> rfl
-
-/-- a key-only predicate holds for all entries iff it holds for every key that can be looked up -/
-private theorem all_keys_iff (P : Key → Bool) (m : PMap) :
-    m.all (fun kv => P kv.1) = true ↔ ∀ k, (pget m k).isSome = true → P k = true := by
-  induction m with
-  | nil => simp [pget]
-  | cons kv r ih =>
-    obtain ⟨k0, v0⟩ := kv
-    simp only [List.all_cons, Bool.and_eq_true, ih, pget]
-    constructor
-    · rintro ⟨h0, hr⟩ k hk
-      by_cases h : k0 = k
-      · subst h; exact h0
-      · simp [h] at hk; exact hr k hk
-    · intro h
-      refine ⟨h k0 (by simp), fun k hk => ?_⟩
-      by_cases h' : k0 = k
-      · subst h'; exact h k0 (by simp)
-      · exact h k (by simp [h', hk])
-
-private theorem all_keys_congr (P : Key → Bool) (m1 m2 : PMap) (h : ∀ k, pget m1 k = pget m2 k) :
-    m1.all (fun kv => P kv.1) = m2.all (fun kv => P kv.1) := by
-  have e : (m1.all (fun kv => P kv.1) = true) ↔ (m2.all (fun kv => P kv.1) = true) := by
-    rw [all_keys_iff, all_keys_iff]; simp [h]
-  cases h1 : m1.all (fun kv => P kv.1) <;> cases h2 : m2.all (fun kv => P kv.1) <;> simp_all
-
-private theorem accepts_congr (s : Sig) (m1 m2 : PMap) (h : ∀ k, pget m1 k = pget m2 k) :
-    accepts s m1 = accepts s m2 := by
-  unfold accepts
-  rw [all_keys_congr (fun k => s.names.contains k) m1 m2 h]
-
-private theorem all_keys_pupdate (P : Key → Bool) (m u : PMap)
-    (hm : m.all (fun kv => P kv.1) = true) (hu : u.all (fun kv => P kv.1) = true) :
-    (pupdate m u).all (fun kv => P kv.1) = true := by
-  rw [all_keys_iff] at *
-  intro k hk
-  rw [pget_pupdate] at hk
-  cases h : pget u k with
-  | some v => exact hu k (by simp [h])
-  | none => rw [h] at hk; exact hm k (by simpa [por] using hk)
-
-private theorem accepts_pupdate (s : Sig) (m u : PMap) (hm : accepts s m = true) (hu : accepts s u = true) :
-    accepts s (pupdate m u) = true := by
-  unfold accepts at *
-  cases hv : s.varkw
-  · simp [hv] at hm hu ⊢
-    have := all_keys_pupdate (fun k => s.names.contains k) m u (by simpa using hm) (by simpa using hu)
-    simpa using this
-  · simp
-
-private theorem pget_zipPos_isSome (ks : List Key) (vs : List Int) (k : Key) :
-    (pget (zipPos ks vs) k).isSome = true → k ∈ ks := by
-  induction ks generalizing vs with
-  | nil => simp [zipPos, pget]
-  | cons k0 r ih =>
-    cases vs with
-    | nil => simp [zipPos, pget]
-    | cons v vs =>
-      simp only [zipPos, pget]
-      by_cases h : k0 = k
-      · subst h; simp
-      · simp only [h, if_false]; intro hk; exact List.mem_cons_of_mem _ (ih vs hk)
-
-private theorem accepts_zipPos (s : Sig) (vs : List Int) : accepts s (zipPos s.pos vs) = true := by
-  unfold accepts
-  cases s.varkw
-  · simp only [Bool.false_or]
-    rw [all_keys_iff (fun k => s.names.contains k)]
-    intro k hk
-    have := pget_zipPos_isSome s.pos vs k hk
-    simp [Sig.names, this]
-  · simp
-
-/-! ### invariants of objects coming out of a constructor -/
-
-private theorem accepts_defaults (s : Sig) (hwf : s.wf = true) : accepts s s.defaults = true := by
-  unfold accepts; unfold Sig.wf at hwf; rw [hwf]; simp
-
-private theorem bind_accepts (s : Sig) (args : List Int) (kw b : PMap) (h : bind s args kw = .ok b) :
-    accepts s b = true := by
-  unfold bind at h
-  cases hp : bindPartial s args kw with
-  | error e => simp [hp] at h
-  | ok b' =>
-    simp only [hp] at h
-    split at h
-    · cases h
-      unfold bindPartial at hp
-      split at hp
-      · cases hp
-      · simp only at hp
-        split at hp
-        · cases hp
-        · split at hp
-          · cases hp
-          · rename_i _ _ hacc
-            cases hp
-            exact accepts_pupdate s _ _ (accepts_zipPos s _) (by simpa using hacc)
-    · cases h
-
-private theorem ctorStore_ok (s : Sig) (hwf : s.wf = true) (args : List Int) (kw : PMap) (o : Obj σ)
-    (h : ctorStore s args kw = .ok o) :
-    o.state = none ∧ accepts s o.params = true ∧ (∀ k, (pget s.defaults k).isSome = true → (pget o.params k).isSome = true) := by
-  unfold ctorStore at h
-  cases hb : bind s args kw with
-  | error e => simp [hb] at h
-  | ok b =>
-    simp only [hb] at h
-    cases h
-    refine ⟨rfl, ?_, ?_⟩
-    · exact accepts_pupdate s _ _ (accepts_defaults s hwf) (bind_accepts s args kw b hb)
-    · intro k hk
-      simp only [pget_pupdate]
-      cases hbk : pget b k with
-      | some v => simp [por]
-      | none => simpa [por] using hk
-
 /-! ### observational equality -/
 
-/-- same internal state and the same effective hyper-parameters (dict order and shadowed
+/-- same internal state and the same effective attribute values (dict order and shadowed
 duplicates are not observable) -/
 def Equiv (o1 o2 : Obj σ) : Prop := o1.state = o2.state ∧ ∀ k, pget o1.params k = pget o2.params k
 
@@ -172,33 +27,64 @@ def EquivE : Except Err (Obj σ) → Except Err (Obj σ) → Prop
 
 private theorem equiv_fun {o1 o2 : Obj σ} (h : Equiv o1 o2) : pget o1.params = pget o2.params := funext h.2
 
-private theorem storeParams_equiv (s : Sig) {o1 o2 : Obj σ} (h : Equiv o1 o2) (kw : PMap) :
-    EquivE (storeParams s o1 kw) (storeParams s o2 kw) := by
+private theorem reported_congr (s : Sig) {o1 o2 : Obj σ} (h : Equiv o1 o2) (k : Key) :
+    pget (reported s o1) k = pget (reported s o2) k := by
+  simp only [pget_reported, h.2 k]
+
+private theorem storeParams_equiv (s : Sig) {o1 o2 : Obj σ} (h : Equiv o1 o2) (kw1 kw2 : PMap)
+    (hk : ∀ k, pget kw1 k = pget kw2 k) :
+    EquivE (storeParams s o1 kw1) (storeParams s o2 kw2) := by
   unfold storeParams
+  rw [settable_congr s kw1 kw2 hk]
   split
-  · exact ⟨h.1, fun k => by simp [pget_pupdate, h.2 k]⟩
+  · exact ⟨h.1, fun k => by simp [pget_pupdate, h.2 k, hk k]⟩
   · rfl
 
+private theorem dictSetState_equiv (s : Sig) (t : Bool) {o1 o2 : Obj σ} (h : Equiv o1 o2) (b : Blob σ) :
+    EquivE (dictSetState s t o1 b) (dictSetState s t o2 b) := by
+  cases b with
+  | none => exact h
+  | some pl =>
+    simp only [dictSetState]
+    split
+    · rfl
+    · cases pl with
+      | whole p st =>
+        exact storeParams_equiv s (o1 := { o1 with params := p, state := st }) (o2 := { o2 with params := p, state := st })
+          ⟨rfl, fun _ => rfl⟩ _ _ (reported_congr s h)
+      | value x => rfl
+
 /-- **Equivalent objects behave identically** under every flavour: `apply` gives the same result
-(or the same error) for every input, `train` and `set_params` keep them equivalent. -/
+(or the same error) for every input, they report the same hyper-parameters, and `train`,
+`set_params` and `set_state` (of any state) keep them equivalent. -/
 theorem C13_equiv_behaves (u : User σ) (fs : FlavourSpec) (o1 o2 : Obj σ) (h : Equiv o1 o2) :
     (∀ x, (fs.toFlavour u).apply o1 x = (fs.toFlavour u).apply o2 x) ∧
     (∀ x y, EquivE ((fs.toFlavour u).train o1 x y) ((fs.toFlavour u).train o2 x y)) ∧
     (∀ kw, EquivE ((fs.toFlavour u).setParams o1 kw) ((fs.toFlavour u).setParams o2 kw)) ∧
-    (∀ k, pget ((fs.toFlavour u).getParams o1) k = pget ((fs.toFlavour u).getParams o2) k) := by
+    (∀ k, pget ((fs.toFlavour u).getParams o1) k = pget ((fs.toFlavour u).getParams o2) k) ∧
+    (∀ b, EquivE ((fs.toFlavour u).setState o1 b) ((fs.toFlavour u).setState o2 b)) := by
   have hf := equiv_fun h
   have hs := h.1
   cases fs with
   | native s t =>
-    refine ⟨fun x => ?_, fun x y => ?_, fun kw => storeParams_equiv s h kw, h.2⟩
+    refine ⟨fun x => ?_, fun x y => ?_, fun kw => storeParams_equiv s h kw kw (fun _ => rfl), reported_congr s h,
+      dictSetState_equiv s t h⟩
     · simp only [FlavourSpec.toFlavour, native, classApply, hf, hs]
     · simp only [FlavourSpec.toFlavour, native]
       cases t
       · simp [EquivE]
       · simp [EquivE, Equiv, hf, hs]
+  | custom s =>
+    refine ⟨fun x => ?_, fun x y => ?_, fun kw => storeParams_equiv s h kw kw (fun _ => rfl), reported_congr s h, fun b => ?_⟩
+    · simp only [FlavourSpec.toFlavour, nativeCustom, classApply, hf, hs]
+    · simp [FlavourSpec.toFlavour, nativeCustom, EquivE, Equiv, hf, hs]
+    · simp only [FlavourSpec.toFlavour, nativeCustom]
+      cases b with
+      | none => exact h
+      | some pl => cases pl <;> simp [EquivE, Equiv]
   | decorated s p =>
     have ha := accepts_congr s o1.params o2.params h.2
-    refine ⟨fun x => ?_, fun x y => ?_, fun kw => ?_, h.2⟩
+    refine ⟨fun x => ?_, fun x y => ?_, fun kw => ?_, h.2, fun b => ?_⟩
     · simp only [FlavourSpec.toFlavour, decorated, hf, hs, ha]
     · simp only [FlavourSpec.toFlavour, decorated, ha]
       cases p
@@ -208,8 +94,15 @@ theorem C13_equiv_behaves (u : User σ) (fs : FlavourSpec) (o1 o2 : Obj σ) (h :
         · simp [EquivE, Equiv, hf, hs]
     · simp only [FlavourSpec.toFlavour, decorated, EquivE, Equiv, hs, true_and]
       intro k; simp [pget_pupdate, h.2 k]
+    · simp only [FlavourSpec.toFlavour, decorated]
+      cases p
+      · cases b <;> simp [EquivE]; exact h
+      · cases b with
+        | none => exact h
+        | some pl => cases pl <;> simp [EquivE, Equiv, h.2]
   | wrapped s tm =>
-    refine ⟨fun x => ?_, fun x y => ?_, fun kw => storeParams_equiv s h kw, h.2⟩
+    refine ⟨fun x => ?_, fun x y => ?_, fun kw => storeParams_equiv s h kw kw (fun _ => rfl), reported_congr s h,
+      dictSetState_equiv s tm.stateful h⟩
     · simp only [FlavourSpec.toFlavour, wrapped, classApply, hf, hs]
     · simp only [FlavourSpec.toFlavour, wrapped]
       cases tm <;> simp [EquivE, Equiv, hf, hs]
@@ -223,33 +116,42 @@ theorem C13_empty (u : User σ) (fs : FlavourSpec) (o : Obj σ) :
   refine ⟨?_, rfl⟩
   cases fs with
   | native s t => rfl
+  | custom s => rfl
   | decorated s p => cases p <;> rfl
   | wrapped s tm => rfl
 
-/-- A freshly built stateful actor is untrained: `apply` raises; and it stays so after an empty
-state.  A fresh decorated pair exports the empty state. -/
+private theorem build_state_none (u : User σ) (fs : FlavourSpec) (args : List Int) (kw : PMap) (o : Obj σ)
+    (hb : (fs.toFlavour u).build args kw = .ok o) : o.state = none := by
+  cases fs with
+  | native s t =>
+    simp only [FlavourSpec.toFlavour, native, ctorStore] at hb
+    split at hb <;> cases hb; rfl
+  | custom s =>
+    simp only [FlavourSpec.toFlavour, nativeCustom, ctorStore] at hb
+    split at hb <;> cases hb; rfl
+  | decorated s p =>
+    simp only [FlavourSpec.toFlavour, decorated] at hb
+    split at hb
+    · cases hb
+    · split at hb <;> cases hb; rfl
+  | wrapped s tm =>
+    obtain ⟨o1, h1, rfl⟩ := wrappedBuild_ok s args kw o hb
+    simp only [ctorStore] at h1
+    split at h1 <;> cases h1; rfl
+
+/-- A freshly built actor with a training implementation is untrained: `apply` raises; and it
+stays so after an empty state.  A fresh decorated pair exports the empty state. -/
 theorem C13_untrained (u : User σ) (fs : FlavourSpec) (hst : (fs.toFlavour u).hasTrain = true)
     (args : List Int) (kw : PMap) (o : Obj σ) (hb : (fs.toFlavour u).build args kw = .ok o) :
     (∀ x, (fs.toFlavour u).apply o x = .error .runtimeError) ∧
     (∀ o', (fs.toFlavour u).setState o none = .ok o' → ∀ x, (fs.toFlavour u).apply o' x = .error .runtimeError) ∧
     (∀ s p, fs = .decorated s p → (fs.toFlavour u).getState o = none) := by
-  have hnone : o.state = none := by
-    cases fs with
-    | native s t =>
-      simp only [FlavourSpec.toFlavour, native, ctorStore] at hb
-      split at hb <;> cases hb; rfl
-    | decorated s p =>
-      simp only [FlavourSpec.toFlavour, decorated] at hb
-      split at hb
-      · cases hb
-      · split at hb <;> cases hb; rfl
-    | wrapped s tm =>
-      simp only [FlavourSpec.toFlavour, wrapped, ctorStore] at hb
-      split at hb <;> cases hb; rfl
+  have hnone : o.state = none := build_state_none u fs args kw o hb
   have happ : ∀ x, (fs.toFlavour u).apply o x = .error .runtimeError := by
     intro x
     cases fs with
     | native s t => simp only [FlavourSpec.toFlavour, native] at hst; subst hst; simp [FlavourSpec.toFlavour, native, classApply, hnone]
+    | custom s => simp [FlavourSpec.toFlavour, nativeCustom, classApply, hnone]
     | decorated s p => simp only [FlavourSpec.toFlavour, decorated] at hst; subst hst; simp [FlavourSpec.toFlavour, decorated, hnone]
     | wrapped s tm => simp only [FlavourSpec.toFlavour, wrapped] at hst; simp [FlavourSpec.toFlavour, wrapped, classApply, hst, hnone]
   refine ⟨happ, ?_, ?_⟩
@@ -264,22 +166,34 @@ theorem C13_untrained (u : User σ) (fs : FlavourSpec) (hst : (fs.toFlavour u).h
 
 /-! ### hyper-parameters of the receiving actor win -/
 
+/-- the state methods are forml's own (`flow.Actor.get_state/set_state`, `Stateful.Actor`'s), not
+user-written ones -/
+def FlavourSpec.formlState : FlavourSpec → Bool
+  | .custom _ => false
+  | _ => true
+
 private theorem storeParams_win (s : Sig) (o o' : Obj σ) (kw : PMap) (h : storeParams s o kw = .ok o')
-    (k : Key) (v : Int) (hk : pget kw k = some v) : pget o'.params k = some v := by
+    (k : Key) (v : Int) (hk : pget kw k = some v) : pget (reported s o') k = some v := by
   unfold storeParams at h
   split at h
-  · cases h; simp [pget_pupdate, por_some hk]
+  · rename_i hset
+    cases h
+    have hvis : s.visible k = true := by
+      cases hv : s.visible k with
+      | true => rfl
+      | false => have := settable_hidden s kw hset k hv; rw [this] at hk; cases hk
+    simp [pget_reported, hvis, pget_pupdate, por_some hk]
   · cases h
 
-/-- **Precedence**: whatever state is given to an actor (`set_state` of *any* bytes that it
-accepts), every hyper-parameter the actor had keeps its value. -/
-theorem C13_params_win (u : User σ) (fs : FlavourSpec) (o o' : Obj σ) (b : Blob σ)
+/-- **Precedence**: whatever state is given to an actor (`set_state` of *any* bytes that forml's
+state methods accept), every hyper-parameter the actor had keeps its value. -/
+theorem C13_params_win (u : User σ) (fs : FlavourSpec) (hown : fs.formlState = true) (o o' : Obj σ) (b : Blob σ)
     (h : (fs.toFlavour u).setState o b = .ok o') (k : Key) (v : Int)
     (hk : pget ((fs.toFlavour u).getParams o) k = some v) :
     pget ((fs.toFlavour u).getParams o') k = some v := by
-  cases fs with
-  | native s t =>
-    simp only [FlavourSpec.toFlavour, native] at h hk ⊢
+  have hdict : ∀ (s : Sig) (t : Bool), dictSetState s t o b = .ok o' → pget (reported s o) k = some v →
+      pget (reported s o') k = some v := by
+    intro s t h hk
     cases b with
     | none => cases h; exact hk
     | some pl =>
@@ -287,8 +201,11 @@ theorem C13_params_win (u : User σ) (fs : FlavourSpec) (o o' : Obj σ) (b : Blo
       split at h
       · cases h
       · cases pl with
-        | whole p st => exact storeParams_win s _ o' o.params h k v hk
+        | whole p st => exact storeParams_win s _ o' _ h k v hk
         | value x => cases h
+  cases fs with
+  | native s t => exact hdict s t h hk
+  | custom s => cases hown
   | decorated s p =>
     simp only [FlavourSpec.toFlavour, decorated] at h hk ⊢
     cases p
@@ -296,19 +213,10 @@ theorem C13_params_win (u : User σ) (fs : FlavourSpec) (o o' : Obj σ) (b : Blo
     · cases b with
       | none => simp at h; cases h; exact hk
       | some pl => cases pl <;> simp at h; cases h; exact hk
-  | wrapped s tm =>
-    simp only [FlavourSpec.toFlavour, wrapped] at h hk ⊢
-    cases b with
-    | none => cases h; exact hk
-    | some pl =>
-      simp only [dictSetState] at h
-      split at h
-      · cases h
-      · cases pl with
-        | whole p st => exact storeParams_win s _ o' o.params h k v hk
-        | value x => cases h
+  | wrapped s tm => exact hdict s tm.stateful h hk
 
-/-- The same through the platform's `SetState.set` (`get_params`, `set_state`, `set_params`). -/
+/-- The same through the platform's `SetState.set` (`get_params`, `set_state`, `set_params`), for
+every flavour -- including actors whose own `set_state` overwrites everything. -/
 theorem C13_params_win_preset (u : User σ) (fs : FlavourSpec) (o o' : Obj σ) (b : Blob σ)
     (h : presetState (fs.toFlavour u) o b = .ok o') (k : Key) (v : Int)
     (hk : pget ((fs.toFlavour u).getParams o) k = some v) :
@@ -322,6 +230,7 @@ theorem C13_params_win_preset (u : User σ) (fs : FlavourSpec) (o o' : Obj σ) (
     · rename_i o1 _
       cases fs with
       | native s t => exact storeParams_win s o1 o' _ h k v hk
+      | custom s => exact storeParams_win s o1 o' _ h k v hk
       | decorated s p =>
         simp only [FlavourSpec.toFlavour, decorated] at h hk ⊢
         cases h; simp [pget_pupdate, por_some hk]
@@ -329,79 +238,138 @@ theorem C13_params_win_preset (u : User σ) (fs : FlavourSpec) (o o' : Obj σ) (
 
 /-! ### state transfer -/
 
-private theorem dict_transfer (s : Sig) (r0 twin : Obj σ) (hacc : accepts s r0.params = true) :
-    dictSetState s true r0 (dictGetState true twin)
-      = .ok { params := pupdate twin.params r0.params, state := twin.state } := by
-  simp [dictSetState, dictGetState, storeParams, hacc]
+private theorem storeParams_reported (s : Sig) (X r0 : Obj σ) (hacc : accepts s r0.params = true) :
+    storeParams s X (reported s r0) = .ok { X with params := pupdate X.params (reported s r0) } := by
+  simp [storeParams, settable_reported s r0 hacc]
+
+private theorem dict_raw (s : Sig) (r0 : Obj σ) (tp : PMap) (ts : Option σ) (hacc : accepts s r0.params = true) :
+    dictSetState s true r0 (some (.whole tp ts))
+      = .ok { r0 with params := pupdate tp (reported s r0), state := ts } := by
+  simp only [dictSetState, Bool.not_true, Bool.false_eq_true, if_false]
+  exact storeParams_reported s _ r0 hacc
+
+private theorem por_por_self (a b : Option Int) : por a (por a b) = por a b := by cases a <;> rfl
+
+/-- the constructor of a class flavour yields an object whose attributes are all constructor names -/
+private theorem build_accepts (u : User σ) (fs : FlavourSpec) (hwf : fs.sig.wf = true)
+    (args : List Int) (kw : PMap) (r0 : Obj σ) (hb : (fs.toFlavour u).build args kw = .ok r0)
+    (hnd : ∀ s p, fs ≠ .decorated s p) : accepts fs.sig r0.params = true := by
+  cases fs with
+  | native s t => exact (ctorStore_ok s hwf args kw r0 hb).2.1
+  | custom s => exact (ctorStore_ok s hwf args kw r0 hb).2.1
+  | decorated s p => exact absurd rfl (hnd s p)
+  | wrapped s tm =>
+    obtain ⟨o1, h1, rfl⟩ := wrappedBuild_ok s args kw r0 hb
+    exact (ctorStore_ok s hwf args kw o1 h1).2.1
+
+/-- the attribute values that travel inside an exported state: the whole attribute dict for the
+class flavours; nothing for a decorated pair (the receiver keeps its own keyword arguments) -/
+def carried (fs : FlavourSpec) (twin r0 : Obj σ) : PMap :=
+  match fs with
+  | .decorated _ _ => r0.params
+  | _ => twin.params
 
 /-- **State transfer**: an actor `r0` rebuilt from a builder accepts the state exported by *any*
-twin of the same flavour (trained on whatever history, with whatever parameter updates); the result
-has the twin's internal state, and every hyper-parameter is the builder's, or -- only where the
-builder supplies none -- the twin's. -/
+twin of the same flavour (trained on whatever history, with whatever parameter updates) -- directly
+through `set_state` (forml's state methods) or through the platform's `SetState` preset (every
+flavour).  The result has the twin's internal state; every hyper-parameter the rebuilt actor reports
+keeps the builder's value; only the attributes the builder's actor does not report as
+hyper-parameters are taken from the state. -/
 theorem C13_transfer (u : User σ) (fs : FlavourSpec) (hwf : fs.sig.wf = true)
-    (hst : (fs.toFlavour u).isStateful = true)
+    (hst : (fs.toFlavour u).isStateful = true) (preset : Bool) (hpath : fs.formlState = false → preset = true)
     (args : List Int) (kw : PMap) (r0 : Obj σ) (hb : (fs.toFlavour u).build args kw = .ok r0) (twin : Obj σ) :
-    ∃ r, (fs.toFlavour u).setState r0 ((fs.toFlavour u).getState twin) = .ok r ∧ r.state = twin.state ∧
-      ∀ k, pget r.params k = por (pget r0.params k) (pget r.params k) ∧
-        (pget r0.params k = none → pget r.params k = pget twin.params k ∨ pget r.params k = none) := by
+    ∃ r, giveState preset (fs.toFlavour u) r0 ((fs.toFlavour u).getState twin) = .ok r ∧
+      r.state = twin.state ∧ r.ctor = r0.ctor ∧
+      ∀ k, pget r.params k = por (pget ((fs.toFlavour u).getParams r0) k) (pget (carried fs twin r0) k) := by
+  have hdict : ∀ (f : Flavour σ) (s : Sig), accepts s r0.params = true →
+      f.setState = dictSetState s true → f.getState twin = some (.whole twin.params twin.state) →
+      f.setParams = storeParams s → f.getParams = reported s →
+      ∃ r : Obj σ, giveState preset f r0 (f.getState twin) = .ok r ∧
+        r.state = twin.state ∧ r.ctor = r0.ctor ∧
+        ∀ k, pget r.params k = por (pget (f.getParams r0) k) (pget twin.params k) := by
+    intro f s hacc hset hget hsp hgp
+    cases preset
+    · refine ⟨{ r0 with params := pupdate twin.params (reported s r0), state := twin.state }, ?_, rfl, rfl, fun k => ?_⟩
+      · simp only [giveState, Bool.false_eq_true, if_false, hget, hset]; exact dict_raw s r0 _ _ hacc
+      · simp [hgp, pget_pupdate]
+    · refine ⟨{ r0 with params := pupdate (pupdate twin.params (reported s r0)) (reported s r0), state := twin.state },
+        ?_, rfl, rfl, fun k => ?_⟩
+      · simp only [giveState, if_true, presetState, hget, hset, hsp, hgp, dict_raw s r0 _ _ hacc]
+        exact storeParams_reported s _ r0 hacc
+      · simp [hgp, pget_pupdate, por_por_self]
   cases fs with
   | native s t =>
-    simp only [FlavourSpec.toFlavour, native] at hst hb ⊢
+    simp only [FlavourSpec.toFlavour, native] at hst
     subst hst
-    obtain ⟨_, hacc, _⟩ := ctorStore_ok s hwf args kw r0 hb
-    refine ⟨_, dict_transfer s r0 twin hacc, rfl, fun k => ?_⟩
-    simp only [pget_pupdate]
-    cases pget r0.params k <;> simp [por]
+    have hacc := build_accepts u (.native s true) hwf args kw r0 hb (by intro _ _ h; cases h)
+    exact hdict (native u s true) s hacc rfl (by simp [native, dictGetState]) rfl rfl
+  | custom s =>
+    have hacc := build_accepts u (.custom s) hwf args kw r0 hb (by intro _ _ h; cases h)
+    have hp : preset = true := hpath rfl
+    subst hp
+    refine ⟨{ r0 with params := pupdate twin.params (reported s r0), state := twin.state }, ?_, rfl, rfl, fun k => ?_⟩
+    · simp only [FlavourSpec.toFlavour, nativeCustom, giveState, presetState, if_true]
+      exact storeParams_reported s _ r0 hacc
+    · simp [FlavourSpec.toFlavour, nativeCustom, carried, pget_pupdate]
   | decorated s p =>
-    simp only [FlavourSpec.toFlavour, decorated] at hst hb ⊢
+    simp only [FlavourSpec.toFlavour, decorated] at hst
     subst hst
-    have hnone : r0.state = none := by
-      split at hb
-      · cases hb
-      · split at hb <;> cases hb; rfl
+    have hnone : r0.state = none := build_state_none u _ args kw r0 hb
     cases hts : twin.state with
     | none =>
-      refine ⟨r0, by simp, hnone, fun k => ?_⟩
-      cases pget r0.params k <;> simp [por]
+      refine ⟨r0, ?_, hnone, rfl, fun k => ?_⟩
+      · cases preset <;> simp [FlavourSpec.toFlavour, decorated, giveState, presetState, hts]
+      · simp [FlavourSpec.toFlavour, decorated, carried, por_self]
     | some st =>
-      refine ⟨{ r0 with state := some st }, by simp, rfl, fun k => ?_⟩
-      cases pget r0.params k <;> simp [por]
+      cases preset
+      · refine ⟨{ r0 with state := some st }, ?_, rfl, rfl, fun k => ?_⟩
+        · simp [FlavourSpec.toFlavour, decorated, giveState, hts]
+        · simp [FlavourSpec.toFlavour, decorated, carried, por_self]
+      · refine ⟨{ r0 with state := some st, params := pupdate r0.params r0.params }, ?_, rfl, rfl, fun k => ?_⟩
+        · simp [FlavourSpec.toFlavour, decorated, giveState, presetState, hts]
+        · simp [FlavourSpec.toFlavour, decorated, carried, pget_pupdate]
   | wrapped s tm =>
-    simp only [FlavourSpec.toFlavour, wrapped] at hst hb ⊢
-    obtain ⟨_, hacc, _⟩ := ctorStore_ok s hwf args kw r0 hb
-    rw [hst]
-    refine ⟨_, dict_transfer s r0 twin hacc, rfl, fun k => ?_⟩
-    simp only [pget_pupdate]
-    cases pget r0.params k <;> simp [por]
+    simp only [FlavourSpec.toFlavour, wrapped] at hst
+    have hacc := build_accepts u (.wrapped s tm) hwf args kw r0 hb (by intro _ _ h; cases h)
+    exact hdict (wrapped u s tm) s hacc (by simp [wrapped, hst]) (by simp [wrapped, dictGetState, hst]) rfl rfl
 
-/-- **Transfer equivalence**: if moreover the twin's effective hyper-parameters are the builder's
-(it was built from the same builder and only trained), the rebuilt actor is observationally equal
-to the twin -- hence (`C13_equiv_behaves`) applies, trains and is re-parameterised identically,
-for every input and every continuation. -/
+/-- **Transfer equivalence**: if moreover the twin's attributes are the builder's (it was built
+from the same builder and only trained, or its `set_params` were followed by the builder -- see
+`C13_update_transfer`), the rebuilt actor is observationally equal to the twin -- hence
+(`C13_equiv_behaves`) applies, trains, reports and is re-parameterised identically, for every input
+and every continuation. -/
 theorem C13_transfer_equiv (u : User σ) (fs : FlavourSpec) (hwf : fs.sig.wf = true)
-    (hst : (fs.toFlavour u).isStateful = true)
+    (hst : (fs.toFlavour u).isStateful = true) (preset : Bool) (hpath : fs.formlState = false → preset = true)
     (args : List Int) (kw : PMap) (r0 : Obj σ) (hb : (fs.toFlavour u).build args kw = .ok r0) (twin : Obj σ)
     (hp : ∀ k, pget twin.params k = pget r0.params k) :
-    ∃ r, (fs.toFlavour u).setState r0 ((fs.toFlavour u).getState twin) = .ok r ∧ Equiv r twin := by
-  obtain ⟨r, hr, hs, hk⟩ := C13_transfer u fs hwf hst args kw r0 hb twin
-  refine ⟨r, hr, hs, fun k => ?_⟩
-  obtain ⟨h1, h2⟩ := hk k
-  cases h0 : pget r0.params k with
-  | some v => rw [h1, h0, hp k, h0]; rfl
-  | none =>
-    rcases h2 h0 with h | h
-    · exact h
-    · rw [h, hp k, h0]
+    ∃ r, giveState preset (fs.toFlavour u) r0 ((fs.toFlavour u).getState twin) = .ok r ∧ Equiv r twin ∧ r.ctor = r0.ctor := by
+  obtain ⟨r, hr, hs, hc, hk⟩ := C13_transfer u fs hwf hst preset hpath args kw r0 hb twin
+  refine ⟨r, hr, ⟨hs, fun k => ?_⟩, hc⟩
+  rw [hk k]
+  have hrep : ∀ s : Sig, por (pget (reported s r0) k) (pget twin.params k) = pget twin.params k := by
+    intro s
+    rw [pget_reported, hp k]
+    cases s.visible k
+    · simp only [Bool.false_eq_true, if_false]; rfl
+    · simp only [if_true]; exact por_self _
+  cases fs with
+  | native s t => exact hrep s
+  | custom s => exact hrep s
+  | decorated s p => simp [FlavourSpec.toFlavour, decorated, carried, por_self, hp k]
+  | wrapped s tm => exact hrep s
 
 /-! ### training histories -/
 
-/-- training never changes the hyper-parameters -/
+/-- training never changes the attributes that came through the constructor / `set_params` -/
 private theorem train_params (u : User σ) (fs : FlavourSpec) (o o' : Obj σ) (x y : Int)
     (h : (fs.toFlavour u).train o x y = .ok o') : o'.params = o.params := by
   cases fs with
   | native s t =>
     simp only [FlavourSpec.toFlavour, native] at h
     split at h <;> cases h; rfl
+  | custom s =>
+    simp only [FlavourSpec.toFlavour, nativeCustom] at h
+    cases h; rfl
   | decorated s p =>
     simp only [FlavourSpec.toFlavour, decorated] at h
     split at h
@@ -450,28 +418,120 @@ private theorem trainAll_append (f : Flavour σ) (h1 h2 : List (Int × Int)) (o 
     | ok o1 => exact ih o1
 
 /-- **Incremental training with state transfer, for every history** (induction over the
-histories): train a twin from a builder on `h1`, export its state, give it to an actor rebuilt
-from the same builder and continue training that one on `h2`: the result is observationally equal
-to one actor trained on `h1 ++ h2` (same outputs for every input, by `C13_equiv_behaves`), and a
-failure of the one is the same failure of the other. -/
+histories): train a twin from a builder on `h1`, export its state, give it (directly or through the
+platform's preset) to an actor rebuilt from the same builder and continue training that one on
+`h2`: the result is observationally equal to one actor trained on `h1 ++ h2` (same outputs for every
+input, by `C13_equiv_behaves`), and a failure of the one is the same failure of the other. -/
 theorem C13_incremental (u : User σ) (fs : FlavourSpec) (hwf : fs.sig.wf = true)
-    (hst : (fs.toFlavour u).isStateful = true)
+    (hst : (fs.toFlavour u).isStateful = true) (preset : Bool) (hpath : fs.formlState = false → preset = true)
     (args : List Int) (kw : PMap) (o0 : Obj σ) (hb : (fs.toFlavour u).build args kw = .ok o0)
     (h1 h2 : List (Int × Int)) (twin : Obj σ) (ht : trainAll (fs.toFlavour u) o0 h1 = .ok twin) :
-    ∃ r, (fs.toFlavour u).setState o0 ((fs.toFlavour u).getState twin) = .ok r ∧
+    ∃ r, giveState preset (fs.toFlavour u) o0 ((fs.toFlavour u).getState twin) = .ok r ∧
       EquivE (trainAll (fs.toFlavour u) r h2) (trainAll (fs.toFlavour u) o0 (h1 ++ h2)) := by
   have hp : ∀ k, pget twin.params k = pget o0.params k := by
     intro k; rw [trainAll_params u fs h1 o0 twin ht]
-  obtain ⟨r, hr, he⟩ := C13_transfer_equiv u fs hwf hst args kw o0 hb twin hp
+  obtain ⟨r, hr, he, _⟩ := C13_transfer_equiv u fs hwf hst preset hpath args kw o0 hb twin hp
   refine ⟨r, hr, ?_⟩
   rw [trainAll_append, ht]
   exact trainAll_equiv u fs h2 r twin he
 
+/-! ### hyper-parameter updates interleaved with training -/
+
+/-- attributes a constructor derives from the positional arguments and the defaults -/
+def baseAttrs (fs : FlavourSpec) (args : List Int) : PMap :=
+  match fs with
+  | .decorated _ _ => []
+  | .native s _ | .custom s | .wrapped s _ => pupdate s.defaults (zipPos s.pos (args.drop s.anon))
+
+private theorem build_lookup (u : User σ) (fs : FlavourSpec) (args : List Int) (kw : PMap) (o : Obj σ)
+    (hb : (fs.toFlavour u).build args kw = .ok o) (k : Key) :
+    pget o.params k = por (pget kw k) (pget (baseAttrs fs args) k) := by
+  cases fs with
+  | native s t => exact ctorStore_lookup s args kw o hb k
+  | custom s => exact ctorStore_lookup s args kw o hb k
+  | decorated s p =>
+    simp only [FlavourSpec.toFlavour, decorated] at hb
+    split at hb
+    · cases hb
+    · split at hb <;> cases hb
+      simp [baseAttrs, pget, por_none_right]
+  | wrapped s tm =>
+    obtain ⟨o1, h1, rfl⟩ := wrappedBuild_ok s args kw o hb
+    exact ctorStore_lookup s args kw o1 h1 k
+
+private theorem setParams_lookup (u : User σ) (fs : FlavourSpec) (o o' : Obj σ) (q : PMap)
+    (h : (fs.toFlavour u).setParams o q = .ok o') (k : Key) :
+    pget o'.params k = por (pget q k) (pget o.params k) := by
+  have hstore : ∀ s : Sig, storeParams s o q = .ok o' → pget o'.params k = por (pget q k) (pget o.params k) := by
+    intro s h
+    unfold storeParams at h
+    split at h <;> cases h
+    exact pget_pupdate _ _ _
+  cases fs with
+  | native s t => exact hstore s h
+  | custom s => exact hstore s h
+  | decorated s p =>
+    simp only [FlavourSpec.toFlavour, decorated] at h
+    cases h; exact pget_pupdate _ _ _
+  | wrapped s tm => exact hstore s h
+
+/-- **Hyper-parameter updates interleaved with training, then state transfer** (induction over
+the op sequence): a twin is built from a builder and lives through *any* sequence of training steps
+and `set_params` calls; the builder follows the same updates (`Builder.update(**kw)`); an actor
+rebuilt from the updated builder and given the twin's exported state is observationally equal to
+the twin. -/
+theorem C13_update_transfer (u : User σ) (fs : FlavourSpec) (hwf : fs.sig.wf = true)
+    (hst : (fs.toFlavour u).isStateful = true) (preset : Bool) (hpath : fs.formlState = false → preset = true)
+    (sp sp' : Spec) (ops : List Op) (o0 twin r0 : Obj σ)
+    (hb0 : sp.call (fs.toFlavour u) [] [] = .ok o0) (hrun : runOps (fs.toFlavour u) o0 ops = .ok twin)
+    (hfol : sp.follow (fs.toFlavour u) ops = .ok sp') (hb : sp'.call (fs.toFlavour u) [] [] = .ok r0) :
+    ∃ r, giveState preset (fs.toFlavour u) r0 ((fs.toFlavour u).getState twin) = .ok r ∧ Equiv r twin := by
+  have hinv : ∀ (ops : List Op) (sp : Spec) (o : Obj σ),
+      (∀ k, pget o.params k = por (pget sp.kwargs k) (pget (baseAttrs fs sp.args) k)) →
+      runOps (fs.toFlavour u) o ops = .ok twin → sp.follow (fs.toFlavour u) ops = .ok sp' →
+      ∀ k, pget twin.params k = por (pget sp'.kwargs k) (pget (baseAttrs fs sp'.args) k) := by
+    intro ops
+    induction ops with
+    | nil =>
+      intro sp o hi hr hf k
+      simp only [runOps] at hr; simp only [Spec.follow] at hf
+      cases hr; cases hf; exact hi k
+    | cons op rest ih =>
+      intro sp o hi hr hf
+      simp only [runOps] at hr
+      split at hr
+      · cases hr
+      · rename_i o1 h1
+        cases op with
+        | train x y =>
+          simp only [runOp] at h1
+          simp only [Spec.follow] at hf
+          exact ih sp o1 (by intro k; rw [train_params u fs o o1 x y h1]; exact hi k) hr hf
+        | setParams q =>
+          simp only [runOp] at h1
+          simp only [Spec.follow, Spec.update, mkSpec] at hf
+          split at hf
+          · cases hf
+          · rename_i sp1 hsp1
+            split at hsp1
+            · cases hsp1
+            · cases hsp1
+              refine ih _ o1 (fun k => ?_) hr hf
+              rw [setParams_lookup u fs o o1 q h1 k, hi k]
+              simp [pget_pupdate, por_assoc]
+  have h0 := hinv ops sp o0 (build_lookup u fs sp.args sp.kwargs o0 hb0) hrun hfol
+  have hp : ∀ k, pget twin.params k = pget r0.params k := by
+    intro k; rw [h0 k, build_lookup u fs sp'.args sp'.kwargs r0 hb k]
+  obtain ⟨r, hr, he, _⟩ := C13_transfer_equiv u fs hwf hst preset hpath sp'.args sp'.kwargs r0 hb twin hp
+  exact ⟨r, hr, he⟩
+
 /-! ### pickling -/
 
-/-- Native and decorated actors are pickled by their attribute dict: the copy is the object. -/
+/-- Native (with forml's or their own state methods) and decorated actors are pickled by their
+attribute dict: the copy is the object. -/
 theorem C13_pickle_plain (u : User σ) (s : Sig) (b : Bool) (o : Obj σ) :
-    (native u s b).repickle o = .ok o ∧ (decorated u s b).repickle o = .ok o := ⟨rfl, rfl⟩
+    (native u s b).repickle o = .ok o ∧ (nativeCustom u s).repickle o = .ok o ∧ (decorated u s b).repickle o = .ok o :=
+  ⟨rfl, rfl, rfl⟩
 
 /-- A builder survives pickling (`__getnewargs_ex__` re-runs `Spec.__new__` on the same values). -/
 theorem C13_pickle_builder (f : Flavour σ) (args : List Int) (kw : PMap) (sp : Spec)
@@ -481,113 +541,168 @@ theorem C13_pickle_builder (f : Flavour σ) (args : List Int) (kw : PMap) (sp : 
   | error e => simp [hb] at h
   | ok b => simp only [hb] at h; cases h; simp [Spec.repickle, mkSpec, hb]
 
-/-- what the reachable wrapped objects satisfy (see `C13_wrapped_invariant`) -/
+/-- what the reachable wrapped objects satisfy (see `C13_wrapped_invariant`): the remembered
+constructor arguments construct; every attribute is a constructor name; the hyper-parameters the
+constructor stored are still there; without a training implementation there is no state and the
+attributes that are not hyper-parameters are still the constructor's. -/
 def WrappedInv (s : Sig) (tm : TrainMap) (o : Obj σ) : Prop :=
-  accepts s o.params = true ∧
-  (∀ k, (pget s.defaults k).isSome = true → (pget o.params k).isSome = true) ∧
-  (tm.stateful = false → o.state = none)
+  ∃ o0 : Obj σ, ctorStore s o.ctor.1 o.ctor.2 = .ok o0 ∧
+    accepts s o.params = true ∧
+    (∀ k, s.visible k = true → (pget o0.params k).isSome = true → (pget o.params k).isSome = true) ∧
+    (tm.stateful = false → o.state = none ∧ ∀ k, s.visible k = false → pget o.params k = pget o0.params k)
 
-/-- Full statement: every (reachable) wrapped actor survives pickling. Refuted below. -/
-def C13_pickle_wrapped_full : Prop :=
-  ∀ (σ : Type) (u : User σ) (s : Sig) (tm : TrainMap) (o : Obj σ), s.wf = true → WrappedInv s tm o →
-    ∃ o', (wrapped u s tm).repickle o = .ok o' ∧ Equiv o' o
+private theorem wrappedInv_congr (s : Sig) (tm : TrainMap) (o o' : Obj σ) (he : Equiv o' o) (hc : o'.ctor = o.ctor)
+    (hi : WrappedInv s tm o) : WrappedInv s tm o' := by
+  obtain ⟨o0, h0, hacc, hcov, hsl⟩ := hi
+  refine ⟨o0, by rw [hc]; exact h0, ?_, ?_, ?_⟩
+  · rw [accepts_congr s o'.params o.params he.2]; exact hacc
+  · intro k hv hk; rw [he.2 k]; exact hcov k hv hk
+  · intro hs
+    obtain ⟨h1, h2⟩ := hsl hs
+    exact ⟨by rw [he.1]; exact h1, fun k hv => by rw [he.2 k]; exact h2 k hv⟩
 
-/-- `OriginDefaultConstructible`: the origin class can be instantiated without arguments -/
-def DefaultConstructible (s : Sig) : Bool := s.mandatory.isEmpty
+private theorem por_cover (a b : Option Int) (h : b.isSome = true → a.isSome = true) : por a b = a := by
+  cases a with
+  | some v => rfl
+  | none => cases b with
+    | none => rfl
+    | some w => simp at h
 
-/-- **Pickling of a wrapped actor** (the `copyreg` reducer: `actor()`, `set_state`, `set_params`)
-yields an observationally equal actor *provided the origin is constructible without arguments*. -/
-theorem C13_pickle_wrapped_partial (u : User σ) (s : Sig) (tm : TrainMap) (o : Obj σ) (hwf : s.wf = true)
-    (hdc : DefaultConstructible s = true) (hinv : WrappedInv s tm o) :
-    ∃ o', (wrapped u s tm).repickle o = .ok o' ∧ Equiv o' o := by
-  obtain ⟨hacc, hcov, hstate⟩ := hinv
-  have hm : s.mandatory = [] := by simpa [DefaultConstructible] using hdc
-  have hctor : (ctorStore s [] [] : Except Err (Obj σ)) = .ok { params := s.defaults, state := none } := by
-    simp [ctorStore, bind, bindPartial, hm, zipPos, accepts, pupdate, pkeys]
-  have hdacc : accepts s s.defaults = true := accepts_defaults s hwf
-  simp only [wrapped, hctor]
-  cases hs : tm.stateful
-  · -- stateless: no state travels, the parameters are set on a fresh origin
-    have := hstate hs
-    refine ⟨{ params := pupdate s.defaults o.params, state := none }, by simp [dictSetState, dictGetState, storeParams, hacc], ?_, ?_⟩
-    · exact this.symm
-    · intro k
-      simp only [pget_pupdate]
-      cases hk : pget o.params k with
-      | some v => rfl
-      | none =>
-        cases hd : pget s.defaults k with
-        | none => rfl
-        | some v => have := hcov k (by simp [hd]); simp [hk] at this
-  · refine ⟨{ params := pupdate (pupdate o.params s.defaults) o.params, state := o.state },
-      by simp [dictSetState, dictGetState, storeParams, hacc, hdacc], rfl, ?_⟩
-    intro k
-    simp only [pget_pupdate]
-    cases hk : pget o.params k with
-    | some v => rfl
-    | none =>
-      cases hd : pget s.defaults k with
-      | none => simp [por]
-      | some v => have := hcov k (by simp [hd]); simp [hk] at this
+/-- **Pickling of a wrapped actor** (the `copyreg` reducer: re-create from the remembered
+constructor arguments, `set_state`, `set_params`) yields an observationally equal actor that can be
+pickled again -- for every reachable wrapped actor, trained or not, with or without a training
+implementation, whatever the origin's constructor demands. -/
+theorem C13_pickle_wrapped (u : User σ) (s : Sig) (tm : TrainMap) (o : Obj σ) (hwf : s.wf = true)
+    (hinv : WrappedInv s tm o) :
+    ∃ o', (wrapped u s tm).repickle o = .ok o' ∧ Equiv o' o ∧ o'.ctor = o.ctor ∧ WrappedInv s tm o' := by
+  have hinv' := hinv
+  obtain ⟨o0, h0, hacc, hcov, hsl⟩ := hinv
+  obtain ⟨hst0, hacc0, _⟩ := ctorStore_ok s hwf _ _ o0 h0
+  have hfresh := wrappedBuild_of s o.ctor.1 o.ctor.2 o0 h0
+  have hmain : ∃ o', wrappedRepickle s tm.stateful o = .ok o' ∧ Equiv o' o ∧ o'.ctor = o.ctor := by
+    cases hs : tm.stateful
+    · obtain ⟨hst, hhid⟩ := hsl hs
+      refine ⟨Obj.mk (pupdate o0.params (reported s o)) o0.state o.ctor, ?_, ⟨hst0.trans hst.symm, fun k => ?_⟩, rfl⟩
+      · simp only [wrappedRepickle, hfresh, dictGetState, Bool.false_eq_true, if_false, dictSetState]
+        exact storeParams_reported s _ o hacc
+      · simp only [pget_pupdate, pget_reported]
+        cases hv : s.visible k
+        · simp only [Bool.false_eq_true, if_false]; exact (hhid k hv).symm
+        · simp only [if_true]; exact por_cover _ _ (hcov k hv)
+    · refine ⟨Obj.mk (pupdate (pupdate o.params (reported s (Obj.mk o0.params o0.state o.ctor))) (reported s o)) o.state o.ctor,
+        ?_, ⟨rfl, fun k => ?_⟩, rfl⟩
+      · simp only [wrappedRepickle, hfresh, dictGetState, if_true]
+        rw [dict_raw s (Obj.mk o0.params o0.state (o.ctor.1, o.ctor.2)) o.params o.state hacc0]
+        exact storeParams_reported s _ o hacc
+      · simp only [pget_pupdate, pget_reported]
+        cases hv : s.visible k
+        · simp only [Bool.false_eq_true, if_false]; rfl
+        · simp only [if_true]
+          cases hk : pget o.params k with
+          | some v => rfl
+          | none =>
+            have := hcov k hv
+            cases h0k : pget o0.params k with
+            | none => rfl
+            | some w => simp [h0k, hk] at this
+  obtain ⟨o', h1, h2, h3⟩ := hmain
+  exact ⟨o', h1, h2, h3, wrappedInv_congr s tm o o' h2 h3 hinv'⟩
 
-/-- The hypothesis of the partial theorem holds for every wrapped actor that comes out of its
-constructor and is kept by training / `set_params` / `set_state`. -/
+/-- The invariant holds for every wrapped actor that comes out of its constructor and is kept by
+training, `set_params` and `set_state` of a reachable twin's exported state. -/
 theorem C13_wrapped_invariant (u : User σ) (s : Sig) (tm : TrainMap) (hwf : s.wf = true) :
     (∀ args kw o, (wrapped u s tm).build args kw = .ok o → WrappedInv s tm o) ∧
     (∀ o o' x y, WrappedInv s tm o → (wrapped u s tm).train o x y = .ok o' → WrappedInv s tm o') ∧
     (∀ o o' kw, WrappedInv s tm o → (wrapped u s tm).setParams o kw = .ok o' → WrappedInv s tm o') ∧
     (∀ o o' twin, WrappedInv s tm o → WrappedInv s tm twin →
       (wrapped u s tm).setState o ((wrapped u s tm).getState twin) = .ok o' → WrappedInv s tm o') := by
-  have hstore : ∀ (o o' : Obj σ) (st : Option σ) (p kw : PMap), accepts s p = true →
-      (∀ k, (pget s.defaults k).isSome = true → (pget p k).isSome = true ∨ (pget kw k).isSome = true) →
-      storeParams s { params := p, state := st } kw = .ok o' →
-      accepts s o'.params = true ∧ (∀ k, (pget s.defaults k).isSome = true → (pget o'.params k).isSome = true) ∧ o'.state = st := by
-    intro o o' st p kw hacc hcov h
-    unfold storeParams at h
-    split at h
-    · rename_i hk
-      cases h
-      refine ⟨accepts_pupdate s _ _ hacc hk, fun k hd => ?_, rfl⟩
-      simp only [pget_pupdate]
-      cases hkk : pget kw k with
-      | some v => simp [por]
-      | none => rcases hcov k hd with h | h
-                · simpa [por] using h
-                · simp [hkk] at h
-    · cases h
   refine ⟨?_, ?_, ?_, ?_⟩
   · intro args kw o h
-    obtain ⟨h1, h2, h3⟩ := ctorStore_ok s hwf args kw o h
-    exact ⟨h2, h3, fun _ => h1⟩
+    obtain ⟨o1, h1, rfl⟩ := wrappedBuild_ok s args kw o h
+    obtain ⟨hst, hacc, _⟩ := ctorStore_ok s hwf args kw o1 h1
+    exact ⟨o1, h1, hacc, fun _ _ hk => hk, fun _ => ⟨hst, fun _ _ => rfl⟩⟩
   · intro o o' x y hi h
+    obtain ⟨o0, h0, hacc, hcov, _⟩ := hi
     simp only [wrapped] at h
-    cases tm <;> simp at h <;> cases h <;> exact ⟨hi.1, hi.2.1, by simp [TrainMap.stateful]⟩
+    cases tm <;> simp at h <;> cases h <;> exact ⟨o0, h0, hacc, hcov, by simp [TrainMap.stateful]⟩
   · intro o o' kw hi h
-    obtain ⟨h1, h2, h3⟩ := hstore o o' o.state o.params kw hi.1 (fun k hd => Or.inl (hi.2.1 k hd)) h
-    exact ⟨h1, h2, fun hs => by rw [h3]; exact hi.2.2 hs⟩
+    obtain ⟨o0, h0, hacc, hcov, hsl⟩ := hi
+    simp only [wrapped, storeParams] at h
+    split at h
+    · rename_i hset
+      cases h
+      refine ⟨o0, h0, accepts_pupdate s _ _ hacc (settable_accepts s kw hset), fun k hv hk => ?_, fun hs => ?_⟩
+      · simp only [pget_pupdate]
+        have := hcov k hv hk
+        cases pget kw k <;> simp [por, this]
+      · obtain ⟨h1, h2⟩ := hsl hs
+        refine ⟨h1, fun k hv => ?_⟩
+        simp only [pget_pupdate, settable_hidden s kw hset k hv]
+        exact h2 k hv
+    · cases h
   · intro o o' twin hi ht h
+    have hi' := hi
+    obtain ⟨o0, h0, hacc, hcov, hsl⟩ := hi
     simp only [wrapped, dictGetState] at h
     cases hs : tm.stateful
-    · simp only [hs] at h; cases h; exact hi
-    · simp only [hs, if_true, dictSetState] at h
-      obtain ⟨h1, h2, h3⟩ := hstore o o' twin.state twin.params o.params ht.1 (fun k hd => Or.inr (hi.2.1 k hd)) (by simpa using h)
-      exact ⟨h1, h2, fun hs' => by simp [hs] at hs'⟩
+    · simp only [hs, Bool.false_eq_true, if_false, dictSetState] at h; cases h; exact hi'
+    · simp only [hs, if_true] at h
+      rw [dict_raw s o _ _ hacc] at h
+      cases h
+      obtain ⟨_, _, htacc, _, _⟩ := ht
+      refine ⟨o0, h0, accepts_pupdate s _ _ htacc (settable_accepts s _ (settable_reported s o hacc)), fun k hv hk => ?_,
+        fun hs' => by simp [hs] at hs'⟩
+      simp only [pget_pupdate, pget_reported, hv, if_true]
+      have := hcov k hv hk
+      cases hok : pget o.params k with
+      | none => simp [hok] at this
+      | some v => simp [por]
 
-/-- D21: an origin class with a mandatory constructor argument cannot be unpickled. -/
-theorem C13_pickle_wrapped_counterexample : ¬ C13_pickle_wrapped_full := by
+/-- the reducer before the repair (`actor()`): full statement, refuted below -/
+def C13_pickle_wrapped_legacy_full : Prop :=
+  ∀ (σ : Type) (s : Sig) (tm : TrainMap) (o : Obj σ), s.wf = true → WrappedInv s tm o →
+    ∃ o', wrappedRepickleLegacy s tm.stateful o = .ok o' ∧ Equiv o' o
+
+/-- D21 / C13-F1: with the unrepaired reducer an origin class with a mandatory constructor argument
+cannot be unpickled. -/
+theorem C13_pickle_wrapped_legacy_counterexample : ¬ C13_pickle_wrapped_legacy_full := by
   intro h
   let s : Sig := { pos := [0, 1], mandatory := [0], defaults := [(1, 0)] }
-  let o : Obj Int := { params := [(0, 2), (1, 0)], state := some 5 }
+  let o : Obj Int := { params := [(0, 2), (1, 0)], state := some 5, ctor := ([], [(0, 2)]) }
   have hinv : WrappedInv s .method o := by
-    refine ⟨by decide, ?_, by decide⟩
-    intro k hk
+    refine ⟨{ params := [(1, 0), (0, 2)], state := none }, rfl, by decide, ?_, fun h => absurd h (by decide)⟩
+    intro k _ hk
     by_cases h1 : k = 1
     · subst h1; decide
-    · simp [s, pget, Ne.symm h1] at hk
-  obtain ⟨o', ho', _⟩ := h Int toyUser s .method o (by decide) hinv
-  have : (wrapped toyUser s .method).repickle o = .error .typeError := by rfl
+    · by_cases h0 : k = 0
+      · subst h0; decide
+      · simp [pget, Ne.symm h1, Ne.symm h0] at hk
+  obtain ⟨o', ho', _⟩ := h Int s .method o (by decide) hinv
+  have : wrappedRepickleLegacy s (TrainMap.stateful .method) o = .error .typeError := by rfl
   rw [this] at ho'
   cases ho'
+
+/-- even restricted to origins that can be constructed without arguments -/
+def C13_pickle_wrapped_legacy_constructible_full : Prop :=
+  ∀ (σ : Type) (s : Sig) (tm : TrainMap) (o : Obj σ), s.wf = true → s.mandatory = [] → WrappedInv s tm o →
+    ∃ o', wrappedRepickleLegacy s tm.stateful o = .ok o' ∧ Equiv o' o
+
+/-- C13-F1, silent form: with the unrepaired reducer an actor *without* a training implementation
+whose origin has a constructor argument that is not a hyper-parameter comes back from pickling with
+the default value of that argument (no error, different behaviour). -/
+theorem C13_pickle_wrapped_legacy_constructible_counterexample : ¬ C13_pickle_wrapped_legacy_constructible_full := by
+  intro h
+  let s : Sig := { pos := [0, 2], defaults := [(0, 1), (2, 0)], hidden := [2] }
+  let o : Obj Int := { params := [(0, 1), (2, 7)], state := none, ctor := ([], [(2, 7)]) }
+  have hinv : WrappedInv s .absent o := by
+    refine ⟨{ params := [(0, 1), (2, 7)], state := none }, rfl, by decide, fun k _ hk => hk, fun _ => ⟨rfl, fun _ _ => rfl⟩⟩
+  obtain ⟨o', ho', he⟩ := h Int s .absent o (by decide) rfl hinv
+  have : wrappedRepickleLegacy s (TrainMap.stateful .absent) o
+      = .ok { params := [(0, 1), (2, 0)], state := none, ctor := ([], []) } := by rfl
+  rw [this] at ho'
+  cases ho'
+  have := he.2 2
+  simp [o, pget] at this
 
 /-! ### is_stateful -/
 
@@ -597,10 +712,11 @@ theorem C13_stateful_iff (u : User σ) (fs : FlavourSpec) :
     (fs.toFlavour u).isStateful = (fs.toFlavour u).hasTrain := by
   cases fs with
   | native s t => rfl
+  | custom s => rfl
   | decorated s p => rfl
   | wrapped s tm => cases tm <;> rfl
 
-/-- the same statement for `Class.Actor.is_stateful` as it is before the repair (`hasattr`) -/
+/-- the same statement for `Class.Actor.is_stateful` as it was before the repair (`hasattr`) -/
 def C13_stateful_legacy_full : Prop := ∀ tm : TrainMap, tm.statefulLegacy = tm.trains
 
 theorem C13_stateful_legacy_counterexample : ¬ C13_stateful_legacy_full := by
@@ -628,28 +744,60 @@ theorem C13_builder (f : Flavour σ) (sp sp' : Spec) (args : List Int) (kw : PMa
 
 /-! ### non-vacuity (tests, not theorems): concrete objects satisfy the hypotheses -/
 
-/-- the fixed two-parameter signature of the toy actors is well-formed and default-constructible -/
-example : (Sig.wf { pos := [0, 1], defaults := [(0, 1), (1, 0)] } = true) ∧
-    DefaultConstructible { pos := [0, 1], defaults := [(0, 1), (1, 0)] } = true := by decide
+/-- the signatures of the toy actors are well-formed -/
+example : Sig.wf { pos := [0, 1], defaults := [(0, 1), (1, 0)] } = true ∧
+    Sig.wf { pos := [0, 1, 2], defaults := [(0, 1), (1, 0), (2, 0)], hidden := [2] } = true ∧
+    Sig.wf { pos := [0, 1], mandatory := [0], defaults := [(1, 0)] } = true := by decide
+
+def exSig : Sig := { pos := [0, 1], defaults := [(0, 1), (1, 0)] }
+def exNative : Flavour Int := native toyUser exSig true
+def exCustom : Flavour Int := nativeCustom toyUser exSig
+def exMand : Flavour Int := wrapped toyUser { pos := [0, 1], mandatory := [0], defaults := [(1, 0)] } .method
 
 /-- a builder `(a=2, b=3)`, trained twice, state transferred to a fresh actor: same output -/
-def exNative : Flavour Int := native toyUser { pos := [0, 1], defaults := [(0, 1), (1, 0)] } true
-
 example :
     (do let o ← exNative.build [] [(0, 2), (1, 3)]
         let t ← trainAll exNative o [(1, 2), (3, 4)]
         let r ← exNative.setState o (exNative.getState t)
         pure (← exNative.apply r 10, ← exNative.apply t 10) : Except Err (Int × Int)) = .ok (122, 122) := by rfl
 
-/-- a wrapped actor that satisfies the invariant and the hypotheses of the partial pickle theorem -/
-example : WrappedInv (σ := Int) { pos := [0, 1], defaults := [(0, 1), (1, 0)] } .method
-    { params := [(0, 2), (1, 3)], state := some 5 } := by
-  refine ⟨by decide, ?_, by decide⟩
-  intro k hk
-  by_cases h0 : k = 0
-  · subst h0; decide
-  · by_cases h1 : k = 1
-    · subst h1; decide
-    · simp [pget, Ne.symm h0, Ne.symm h1] at hk
+/-- the hypotheses of `C13_update_transfer` are satisfiable by a non-trivial run: train, `set_params(b=5)`,
+train on the twin; `update(b=5)` on the builder; both builds succeed -/
+example :
+    (do let sp ← mkSpec exNative [] [(0, 2)]
+        let o0 ← sp.call exNative [] []
+        let twin ← runOps exNative o0 [.train 1 2, .setParams [(1, 5)], .train 3 4]
+        let sp' ← sp.follow exNative [.train 1 2, .setParams [(1, 5)], .train 3 4]
+        let r0 ← sp'.call exNative [] []
+        let r ← giveState true exNative r0 (exNative.getState twin)
+        pure (← exNative.apply r 10, ← exNative.apply twin 10, pget (exNative.getParams r) 1)
+      : Except Err (Int × Int × Option Int)) = .ok (124, 124, some 5) := by rfl
+
+/-- the hypothesis `formlState` of `C13_params_win` is needed: an actor whose own `set_state`
+overwrites everything loses the builder's `a=2` to the state's `a=9` on a direct `set_state` … -/
+example :
+    (do let o ← exCustom.build [] [(0, 2)]
+        let t ← exCustom.build [] [(0, 9)]
+        let r ← exCustom.setState o (exCustom.getState t)
+        pure (pget (exCustom.getParams r) 0) : Except Err (Option Int)) = .ok (some 9) := by rfl
+
+/-- … and keeps it through the platform's preset (`C13_params_win_preset`) -/
+example :
+    (do let o ← exCustom.build [] [(0, 2)]
+        let t ← exCustom.build [] [(0, 9)]
+        let r ← presetState exCustom o (exCustom.getState t)
+        pure (pget (exCustom.getParams r) 0) : Except Err (Option Int)) = .ok (some 2) := by rfl
+
+/-- a trained wrapped actor with a mandatory constructor argument is pickled (repaired reducer) -/
+example :
+    (do let o ← exMand.build [] [(0, 2)]
+        let t ← trainAll exMand o [(1, 2)]
+        let t' ← exMand.repickle t
+        pure (← exMand.apply t' 10, ← exMand.apply t 10) : Except Err (Int × Int)) = .ok (53, 53) := by rfl
+
+/-- a wrapped actor with a constructor argument that is not a hyper-parameter satisfies the invariant -/
+example : WrappedInv (σ := Int) { pos := [0, 2], defaults := [(0, 1), (2, 0)], hidden := [2] } .absent
+    { params := [(0, 1), (2, 7)], state := none, ctor := ([], [(2, 7)]) } :=
+  ⟨{ params := [(0, 1), (2, 7)], state := none }, rfl, by decide, fun _ _ hk => hk, fun _ => ⟨rfl, fun _ _ => rfl⟩⟩
 
 end ForML.Actor
